@@ -47,7 +47,7 @@ ASSUMPTIONS = [
 ]
 PROBES = ["overwrite_longer_then_shorter", "overwrite_other_kind", "txt_single_column", "txt_single_row", "txt_1x1", "txt_default_format",
           "net2d_empty", "net2d_no_header", "net3d_no_domain", "net3d_with_domain", "io_error_on_open", "io_error_on_write", "read_after_failed_write_skipped",
-          "three_paths", "polygon_6_vertices"]
+          "three_paths", "polygon_6_vertices", "txt_integer_column", "txt_integer_first_then_float", "net2d_constrained_before_write"]
 
 
 # --------------------------------------------------------------------------------------
@@ -122,6 +122,8 @@ def gen_txt(ch):
             arr = np.array([ch.rng(-50, 50) / 4.0 for _ in range(nrow)])
         elif kind == 1:
             arr = np.array([(ch.unit() - 0.5) * 10.0 ** ch.rng(-6, 6) for _ in range(nrow)])
+        elif kind == 2 and ch.flag():
+            arr = np.array([ch.rng(-3, 40) for _ in range(nrow)], dtype=np.int64)  # e.g. a cell counter
         else:
             arr = np.array([float(ch.rng(-3, 3)) for _ in range(nrow)])
         cols.append(arr)
@@ -185,6 +187,15 @@ def run_history_c47(ch, tr: Trace) -> None:
             fracs = [pp.LineFracture(s) for s in segs]
             dom = pp.Domain({"xmin": -1, "xmax": 2, "ymin": -1, "ymax": 2})
             net = pp.create_fracture_network(fracs, dom) if fracs else pp.fracs.fracture_network_2d.FractureNetwork2d(domain=dom)
+            if segs and ch.flag(1, 3):
+                # constrain the network to a smaller domain before writing: fractures crossing the boundary are cut (and the
+                # domain edges may be added); what is written must be the network as it is now
+                small = pp.Domain({"xmin": 0.1, "xmax": 0.6, "ymin": 0.1, "ymax": 0.6})
+                try:
+                    net.impose_external_boundary(small, add_domain_edges=ch.flag())
+                    tr.probe("net2d_constrained_before_write")
+                except Exception:  # noqa: BLE001  (degenerate cuts are not the point here)
+                    net = pp.create_fracture_network(fracs, dom)
             payload = (canon2d(net._pts, net._edges), header)
             if not segs:
                 tr.probe("net2d_empty")
@@ -219,7 +230,11 @@ def run_history_c47(ch, tr: Trace) -> None:
                 tr.probe("txt_1x1")
             if not lossless:
                 tr.probe("txt_default_format")
-            payload = (names, [c.copy() for c in cols], lossless)
+            if any(c.dtype.kind == "i" for c in cols):
+                tr.probe("txt_integer_column")
+                if cols[0].dtype.kind == "i" and any(c.dtype.kind == "f" for c in cols[1:]):
+                    tr.probe("txt_integer_first_then_float")
+            payload = (names, [c.astype(float) for c in cols], lossless)
             finish_write(p, "txt", payload, cols[0].size * len(cols), lambda: export_data_to_txt(data, p))
 
         # ---- read ---------------------------------------------------------------------
